@@ -402,6 +402,12 @@ def descent_rules(ck, F, S, intrusive, owning, prefix='C08'):
     for tmpl in ('ipr::util::rb_tree::chain', 'ipr::util::rb_tree::container'):
         pr = sorted({f['parent'] for f in F.fn.values() if f['name'] in ('find', 'insert') and 'ipr_probe::' in f['id']
                      and (f.get('parent') or '').startswith(tmpl + '<')})
+        if not pr and getattr(F, 'probe3_error', None):
+            # the tree no longer compiles with such a comparator (its result is stored in an int, switched on, ...): the client gets a
+            # compile error, not a wrong tree; what remains is judged on the library's own instantiations
+            ck.note(f'{tmpl}: not instantiable with a comparator that returns a comparison category in this tree ('
+                    + F.probe3_error.strip().splitlines()[0][:160] + '); descent rules judged on int-valued comparators only')
+            continue
         if not pr:
             raise AnalysisBroken(f'the probe instantiation of {tmpl}::find / insert with a comparison-category comparator is missing')
         runs.append((pr[0], 'ipr_probe::'))
